@@ -13,6 +13,7 @@ mod layouts;
 mod wext;
 pub use wext::WExt;
 pub mod fmtx;
+pub mod recser;
 
 /// bits -> value through the public `from_bits`
 #[inline]
@@ -67,6 +68,10 @@ pub trait Ext: Fixed {
     fn x_rem_assign_ref(a: Self, b: &Self) -> Self;
     // integer right/left operands
     fn x_int_mul(i: Self::Bits, a: Self) -> Self;
+    /// integer on the left by reference: i * &a, &i * a, &i * &a
+    fn x_int_mul_refs(i: &Self::Bits, a: &Self) -> [Self; 3];
+    /// a *= &i, a /= &i, a %= &i
+    fn x_int_assign_refs(a: Self, i: &Self::Bits, op: u8) -> Self;
     fn x_mul_int_refs(a: &Self, i: &Self::Bits) -> [Self; 3];
     fn x_div_int_refs(a: &Self, i: &Self::Bits) -> [Self; 3];
     fn x_rem_int_refs(a: &Self, i: &Self::Bits) -> [Self; 3];
@@ -138,6 +143,15 @@ macro_rules! ext_common {
         fn x_div_assign_ref(mut a: Self, b: &Self) -> Self { a /= b; a }
         fn x_rem_assign_ref(mut a: Self, b: &Self) -> Self { a %= b; a }
         fn x_int_mul(i: $Inner, a: Self) -> Self { i * a }
+        fn x_int_mul_refs(i: &$Inner, a: &Self) -> [Self; 3] { [*i * a, i * *a, i * a] }
+        fn x_int_assign_refs(mut a: Self, i: &$Inner, op: u8) -> Self {
+            match op {
+                0 => a *= i,
+                1 => a /= i,
+                _ => a %= i,
+            }
+            a
+        }
         fn x_mul_int_refs(a: &Self, i: &$Inner) -> [Self; 3] { [a * i, a * *i, *a * i] }
         fn x_div_int_refs(a: &Self, i: &$Inner) -> [Self; 3] { [a / i, a / *i, *a / i] }
         fn x_rem_int_refs(a: &Self, i: &$Inner) -> [Self; 3] { [a % i, a % *i, *a % i] }
